@@ -937,9 +937,40 @@ class SemanticErrorChecker:
             return self.check_expression(expression["binOp"], context, task)
 
         # expression is either 'and', 'or', '==' or '!='
-        return self.check_expression(left, context, task) and self.check_expression(
-            right, context, task
-        )
+        if not (
+            self.check_expression(left, context, task)
+            and self.check_expression(right, context, task)
+        ):
+            return False
+        if expression["binOp"] in ["And", "Or"]:
+            if not (
+                self.expression_is_boolean(left, task) and self.expression_is_boolean(right, task)
+            ):
+                msg = "Right and left side have to be boolean expressions when using And / Or"
+                self.error_handler.print_error(msg, context=context)
+                return False
+        return True
+
+    def expression_is_boolean(self, expression, task: Task) -> bool:
+        """Checks if the given (already checked) expression yields a boolean.
+
+        Returns:
+            True if the given expression is a boolean expression.
+        """
+        if isinstance(expression, bool):
+            return True
+        if isinstance(expression, list):
+            given_type = helpers.get_type_of_variable_list(expression, task, self.structs)
+            return isinstance(given_type, str) and given_type == "boolean"
+        if isinstance(expression, dict):
+            if len(expression) == 2:
+                # negation
+                return True
+            if expression["left"] == "(" and expression["right"] == ")":
+                return self.expression_is_boolean(expression["binOp"], task)
+            # comparisons, And and Or yield booleans, arithmetic operators do not
+            return expression["binOp"] not in ["*", "/", "+", "-"]
+        return False
 
     def expression_is_number(self, expression, task: Task) -> bool:
         """Checks if the given expression is a number (int or float).
